@@ -1647,7 +1647,7 @@ def expr_norm(stmts):
 # 7  forward substitution: pure temporaries + adjacent single-use impure ones
 def _ctor_like(f) -> bool:
     name = f.attr if isinstance(f, ast.Attribute) else (f.id if isinstance(f, ast.Name) else "")
-    return bool(name) and name[0].isupper()
+    return bool(name) and name.lstrip("_")[:1].isupper()       # (private classes too: _SubPort(..))
 
 
 def is_pure_ext(e, pure_calls=()) -> bool:
@@ -2509,6 +2509,108 @@ class Canon:
                 return node
         return [ast.fix_missing_locations(G().visit(s_)) for s_ in stmts]
 
+    def sroa_value_records(self, stmts, module):
+        """a local that only ever holds K(..) for one frozen (value) dataclass K of the program and is rebound inside a loop -- a cursor
+        like `p = _SubPort(port); while ..: p = _SubPort(p.port, p.sub_offset + 1)` -- is its fields: locals x__f, with K(x__f..)
+        written where the whole value is used (equal and hash-equal to it: K compares by fields)"""
+        if not any(isinstance(n, (ast.While, ast.For)) for s_ in stmts for n in ast.walk(s_)):
+            return stmts
+        parents = {}
+        for s_ in stmts:
+            for n in ast.walk(s_):
+                for ch in ast.iter_child_nodes(n):
+                    parents[id(ch)] = n
+        stores = {}
+        for s_ in stmts:
+            for n in ast.walk(s_):
+                if isinstance(n, ast.Name) and isinstance(n.ctx, (ast.Store, ast.Del)):
+                    stores.setdefault(n.id, []).append(n)
+        in_loop = set()
+        for s_ in stmts:
+            for lp in ast.walk(s_):
+                if isinstance(lp, (ast.While, ast.For)):
+                    for b_ in lp.body:
+                        for n in ast.walk(b_):
+                            if isinstance(n, ast.Name) and isinstance(n.ctx, ast.Store):
+                                in_loop.add(n.id)
+        todo = {}
+        for x, ss in stores.items():
+            if x not in in_loop or len(ss) < 2:
+                continue
+            k_ = None
+            ok = True
+            for n in ss:
+                a = parents.get(id(n))
+                if not (isinstance(a, ast.Assign) and len(a.targets) == 1 and a.targets[0] is n and isinstance(a.value, ast.Call) and isinstance(a.value.func, ast.Name)):
+                    ok = False
+                    break
+                c = module.resolve(a.value.func)
+                if not (isinstance(c, Class) and c.is_dataclass and c.dataclass_kwargs.get("frozen") is True and c.dataclass_kwargs.get("eq", True) is True
+                        and c.find_method("__init__")[1] is None and c.find_method("__post_init__")[1] is None and c.find_method("__eq__")[1] is None
+                        and c.find_method("__hash__")[1] is None and (k_ is None or k_ is c)):
+                    ok = False
+                    break
+                k_ = c
+            if ok and k_ is not None:
+                todo[x] = k_
+        if not todo:
+            return stmts
+
+        def fields_of(c, call):
+            fs = [f for f in c.all_fields() if f.init]
+            names = [f.name for f in fs]
+            if any(isinstance(a, ast.Starred) for a in call.args) or any(k.arg is None for k in call.keywords) or len(call.args) > len(names):
+                return None
+            vals = dict(zip(names, call.args))
+            for k in call.keywords:
+                if k.arg not in names or k.arg in vals:
+                    return None
+                vals[k.arg] = k.value
+            for f in fs:
+                if f.name not in vals:
+                    if isinstance(f.default, ast.Constant):
+                        vals[f.name] = copy.deepcopy(f.default)
+                    else:
+                        return None
+            return names, vals
+
+        class W(ast.NodeTransformer):
+            def visit_Assign(self, node):
+                if len(node.targets) == 1 and isinstance(node.targets[0], ast.Name) and node.targets[0].id in todo:
+                    x = node.targets[0].id
+                    fv = fields_of(todo[x], node.value)
+                    if fv is None:
+                        raise NoCanon("value record constructor")
+                    names, vals = fv
+                    vals = {f: self.visit(v) for f, v in vals.items()}
+                    # components that keep their value are left out
+                    keep = [f for f in names if not (isinstance(vals[f], ast.Name) and vals[f].id == f"{x}__{f}")]
+                    if not keep:
+                        return ast.copy_location(ast.Pass(), node)
+                    if len(keep) == 1:
+                        return ast.copy_location(ast.Assign(targets=[ast.Name(id=f"{x}__{keep[0]}", ctx=ast.Store())], value=vals[keep[0]]), node)
+                    return ast.copy_location(ast.Assign(targets=[ast.Tuple(elts=[ast.Name(id=f"{x}__{f}", ctx=ast.Store()) for f in keep], ctx=ast.Store())],
+                                                        value=ast.Tuple(elts=[vals[f] for f in keep], ctx=ast.Load())), node)
+                return self.generic_visit(node)
+
+            def visit_Attribute(self, node):
+                if isinstance(node.value, ast.Name) and node.value.id in todo and isinstance(node.ctx, ast.Load) \
+                        and node.attr in [f.name for f in todo[node.value.id].all_fields() if f.init]:
+                    return ast.copy_location(ast.Name(id=f"{node.value.id}__{node.attr}", ctx=ast.Load()), node)
+                return self.generic_visit(node)
+
+            def visit_Name(self, node):
+                if node.id in todo and isinstance(node.ctx, ast.Load):
+                    c = todo[node.id]
+                    return ast.copy_location(ast.Call(func=ast.Name(id=c.name, ctx=ast.Load()),
+                                                      args=[ast.Name(id=f"{node.id}__{f.name}", ctx=ast.Load()) for f in c.all_fields() if f.init], keywords=[]), node)
+                return node
+        try:
+            new = [ast.fix_missing_locations(W().visit(copy.deepcopy(s_))) for s_ in stmts]
+        except NoCanon:
+            return stmts
+        return [x for x in new if not isinstance(x, ast.Pass)] or new
+
     def expand_replace(self, stmts, module):
         """dataclasses.replace(K(a, b), f=v) is K(a, b) with field f given as v;  replace(x, f=v, g=w) on an object of the only dataclass
         that has fields f and g (no subclasses) is K(<the other fields read from x>, f=v, g=w) when x is then evaluated once"""
@@ -3053,6 +3155,8 @@ class Canon:
         b = norm.merge_display_building(b)
         b = self._project_helper_objects(b, module)
         b = self._project_records_multi(b, module)
+        from .iterlow import lower_iter_pipelines, rotate_loops
+        b = lower_iter_pipelines(b)          # itertools pipelines over count() as counting loops
         b = lift_walrus(lift_ifexp(b))          # conditional expressions returned by inlined helpers
         used = {n.id for s in b for n in ast.walk(s) if isinstance(n, ast.Name)} | {n.func.id for s in b for n in ast.walk(s) if isinstance(n, ast.Call) and isinstance(n.func, ast.Name)}
         b = [s for s in b if not (isinstance(s, ast.FunctionDef) and s.name not in used)]
@@ -3061,6 +3165,7 @@ class Canon:
         b = norm.split_parallel_assign(norm.merge_display_building(b))
         b = norm.default_then_override(b)
         b = self.expand_replace(b, module)
+        b = self.sroa_value_records(b, module)
         b = norm.fold_none_tests(b)             # `if count is not None` on a count a helper just computed
         b = self.thread_sentinels(b, module)
         b = self.fold_enum_tests(b, module)
@@ -3070,6 +3175,7 @@ class Canon:
         b = nest_tails(b)
         b = strip_tail_continue(b)
         b = strip_tail_return(b)
+        b = rotate_loops(b, _PURE_EXT)
         b = norm.normalise_loops(b)
         from .nf import _generator_to_genexp
         b = _generator_to_genexp(b)
@@ -3089,11 +3195,16 @@ class Canon:
                 b = subst_single_use(_drop_dead_temps(norm.forward_subst(b2, pure_calls=_PURE_EXT)))
             b = norm.forward_subst(b, pure_calls=_PURE_EXT)
             b = _drop_dead_temps(b)
+            b3 = lower_iter_pipelines(b)          # (a pipeline held in a single-use local, now written where it is consumed)
+            if b3 is not b and len(b3) != len(b):
+                b = _drop_dead_temps(norm.forward_subst(rotate_loops(polarity(b3), _PURE_EXT), pure_calls=_PURE_EXT))
             b = norm.normalise_loops(b)
             b2 = norm.unroll_literal_loops(norm.fuse_for_over_comp(b, pure_calls=_PURE_EXT))
             if ast.dump(ast.Module(body=b2, type_ignores=[])) != ast.dump(ast.Module(body=b, type_ignores=[])):
                 b2 = self._project_nested(b2, module)       # records a comprehension built for the loop (now bound per iteration)
                 b = _drop_dead_temps(norm.forward_subst(b2, pure_calls=_PURE_EXT))
+        if subst:
+            b = _drop_dead_temps(b)
         b = polarity(expr_norm(b))          # (expression idioms may have produced `not all(..)` tests)
         for s in b:
             ast.fix_missing_locations(s)
